@@ -194,6 +194,75 @@ Definition reports_less (q a : quote) : Prop :=
   live_time (qmetrics q) < live_time (qmetrics a) \/
   received_payment_count (qmetrics q) < received_payment_count (qmetrics a).
 
+(* ---------- SwarmDriver::bad_nodes, record_node_issue and the QuoteVerification arm of
+   handle_local_cmd (ant-networking/src/cmd.rs) ----------
+   bad_nodes : peer -> (issues recorded against it, oldest first, each with the second it was recorded
+   at; is it considered bad).  `clk` is the monotonic clock in whole seconds (Instant; elapsed().as_secs()).
+   Issue kinds are numbers: 0 ReplicationFailure, 1 CloseNodesShunning, 2 BadQuoting, 3 FailedChunkProofCheck. *)
+Definition BAD_QUOTING : N := 2.
+Definition bad_entry := (list (N * N) * bool)%type.
+Definition bad_nodes := list (N * bad_entry).
+
+Fixpoint bn_lookup (p : N) (bn : bad_nodes) : option bad_entry :=
+  match bn with
+  | [] => None
+  | (p', e) :: r => if p =? p' then Some e else bn_lookup p r
+  end.
+
+Fixpoint bn_upsert (p : N) (e : bad_entry) (bn : bad_nodes) : bad_nodes :=
+  match bn with
+  | [] => [(p, e)]
+  | (p', e') :: r => if p =? p' then (p, e) :: r else (p', e') :: bn_upsert p e r
+  end.
+
+Definition peer_is_bad (bn : bad_nodes) (p : N) : bool :=
+  match bn_lookup p bn with Some (_, b) => b | None => false end.
+
+Definition kind_count (k : N) (iv : list (N * N)) : N :=
+  len (filter (fun it : N * N => fst it =? k) iv).
+
+Definition three_strikes (iv : list (N * N)) : bool :=
+  existsb (fun it : N * N => Consts.issue_strikes <=? kind_count (fst it) iv) iv.
+
+Definition record_node_issue (clk : N) (bn : bad_nodes) (p kind : N) : bad_nodes :=
+  let '(iv, bad) := match bn_lookup p bn with Some e => e | None => ([], false) end in
+  if bad then bn_upsert p (iv, true) bn           (* entry().or_default(): nothing else changes *)
+  else
+    let iv1 := filter (fun it : N * N => clk - snd it <? Consts.issue_retention_secs) iv in
+    let iv2 := if len iv1 =? Consts.issue_list_cap then tl iv1 else iv1 in
+    let is_new := match last (map Some iv2) None with
+                  | Some (_, ts) => Consts.issue_rate_limit_secs <? clk - ts
+                  | None => true
+                  end in
+    let iv3 := if is_new then iv2 ++ [(kind, clk)] else iv2 in
+    bn_upsert p (iv3, three_strikes iv3) bn.
+
+Record driver_state := { d_hist : history; d_bad : bad_nodes; d_clk : N }.
+
+(* one (peer, quote) of LocalSwarmCmd::QuoteVerification: skipped (None) iff the peer is already
+   considered bad; otherwise verify_peer_quote, and a flagged quote is recorded as a BadQuoting issue *)
+Definition handle_quote (now : N) (st : driver_state) (p : N) (q : quote) : driver_state * option bool :=
+  if peer_is_bad (d_bad st) p then (st, None)
+  else
+    let (h1, f) := verify_peer_quote now (d_hist st) p q in
+    ({| d_hist := h1;
+        d_bad := if f then record_node_issue (d_clk st) (d_bad st) p BAD_QUOTING else d_bad st;
+        d_clk := d_clk st |}, Some f).
+
+Inductive driver_step :=
+| DQuote (now : N) (p : N) (q : quote)        (* LocalSwarmCmd::QuoteVerification { [(p, q)] } *)
+| DIssue (p kind : N)                         (* LocalSwarmCmd::RecordNodeIssue *)
+| DAge (secs : N).                            (* time passes *)
+
+Definition driver_do (st : driver_state) (s : driver_step) : driver_state :=
+  match s with
+  | DQuote now p q => fst (handle_quote now st p q)
+  | DIssue p k => {| d_hist := d_hist st; d_bad := record_node_issue (d_clk st) (d_bad st) p k; d_clk := d_clk st |}
+  | DAge d => {| d_hist := d_hist st; d_bad := d_bad st; d_clk := d_clk st + d |}
+  end.
+
+Definition driver_init : driver_state := {| d_hist := []; d_bad := []; d_clk := 0 |}.
+
 (* ---------- ant-node/src/quote.rs: the node's quoting duty ----------
    `Network::verify` checks a signature with the node's OWN key (self_key); the quote's pub_key field
    is not consulted there.  An address enters only through `as_xorname().unwrap_or_default()`. *)
@@ -295,4 +364,28 @@ Definition agree_duty (K : keysys) (now : N) (self_peer : list N) (self_key : N)
                                      live_time := 0; network_density := None; network_size := None |};
                       rewards_address := []; pub_key := []; signature := [] |})) idx)
   | _, _ => false
+  end.
+
+(* per step: the peer looked at, and what the implementation shows for it afterwards: issue kinds
+   (oldest first), is_bad, timestamp of the stored reference quote *)
+Definition obs := (N * (list N * bool * option N))%type.
+
+Definition observe (st : driver_state) (p : N) : list N * bool * option N :=
+  (match bn_lookup p (d_bad st) with Some (iv, _) => map fst iv | None => [] end,
+   peer_is_bad (d_bad st) p,
+   match h_lookup p (d_hist st) with Some x => Some (timestamp x) | None => None end).
+
+Definition obs_eqb (a b : list N * bool * option N) : bool :=
+  list_eqb N.eqb (fst (fst a)) (fst (fst b)) && Bool.eqb (snd (fst a)) (snd (fst b)) &&
+  option_eqb N.eqb (snd a) (snd b).
+
+Fixpoint agree_driver (st : driver_state) (steps : list (driver_step * option obs)) : bool :=
+  match steps with
+  | [] => true
+  | (s, o) :: r =>
+      let st1 := driver_do st s in
+      match o with
+      | Some (p, seen) => obs_eqb (observe st1 p) seen
+      | None => true
+      end && agree_driver st1 r
   end.
